@@ -23,7 +23,7 @@ CONSTANTS MaxEp = {maxep}
           MaxReset = 100
           MaxNet = 100
           MaxBg = 1000
-          HasId = TRUE
+          HasId = {hasid}
           KF_PumpDies = {pumpdies}
           KF_LateComplete = {late}
           KF_NotFound = TRUE
@@ -31,10 +31,16 @@ CONSTANTS MaxEp = {maxep}
           AllowExit = TRUE
           KF_Overtake = {overtake}
           MaxSockFail = 100
+          MaxRF = {maxrf}
 CONSTRAINT Track
 POSTCONDITION Report
 CHECK_DEADLOCK FALSE
 """
+
+
+def max_rf():
+    from geckolib.const import GeckoConstants
+    return int(GeckoConstants.MAX_RF_ERRORS_BEFORE_HALT)
 
 
 def flag(name):
@@ -111,6 +117,21 @@ def scenarios(rng, quick):
     out.append(("sockfail:connect", [(4.05, "sockfail", 1), (30.0, "reset", None)], {}, 80))
     out.append(("sockfail:after-reset", [(15.0, "reset", None), (15.0, "sockfail", 1)], {}, 60))
     out.append(("sockfail:after-reset-twice", [(15.0, "reset", None), (15.0, "sockfail", 3)], {}, 60))
+    # RF errors are counted per connection: past the limit every further one is followed by TOO_MANY
+    out.append(("rfburst:to-the-limit", [(15.0, "rfburst", max_rf())], {}, 100))
+    out.append(("rfburst:past-the-limit", [(15.0, "rfburst", max_rf() - 1), (25.0, "rfburst", 3)], {}, 200))
+    out.append(("rfburst:while-complete-handler-suspended", [(8.0, "rfburst", max_rf() + 1)], {"CONNECTION_SPA_COMPLETE": 20.0}, 150))
+    out.append(("rfburst:in-handshake", [(4.6, "rfburst", max_rf() + 2)], {}, 150))
+    # async_set_spa_info: with the same spa at any time (= a reset), and as the step that gives a manager
+    # started without an identifier ("Choose spa") its spa
+    for t in ([4.3, 9.0] if quick else [0.05, 2.0, 4.05, 4.3, 4.8, 6.0, 7.75, 9.0, 20.0]):
+        out.append((f"setinfo@{t}", [(t, "setinfo", None)], {}, t + 45))
+    out.append(("setinfo-in-error", [(12.0, "net", "blackout"), (150.0, "setinfo", None), (300.0, "net", "ok")], {}, 520))
+    out.append(("noid:idle", [], {}, 30))
+    for t in ([2.0, 12.0] if quick else [0.05, 2.0, 3.95, 4.05, 6.0, 12.0]):
+        out.append((f"noid:setinfo@{t}", [(t, "setinfo", None)], {}, t + 45))
+    out.append(("noid:setinfo-then-reset", [(6.0, "setinfo", None), (20.0, "reset", None)], {}, 70))
+    out.append(("noid:reset-then-setinfo", [(6.0, "reset", None), (12.0, "setinfo", None)], {}, 70))
     # error state then reset
     out.append(("blackout-then-reset", [(12.0, "net", "blackout"), (150.0, "reset", None), (300.0, "net", "ok")], {}, 520))
     # suspended handlers around a reset from CONNECTED (and elsewhere)
@@ -152,8 +173,13 @@ def run_scenarios(rng, quick, which=None):
                 mode = m
             sc.append((t, a, arg))
         snap = env.REPO + "/tests/snapshots/inXM-Pump 1 running-2020-12-08 19_54_01.snapshot" if name.startswith("active:") else None
-        r = LifecycleRun(rng, sc, susp=susp, rank=rng.choice(["stable", "perm", "reverse"]), horizon=horizon, snapshot=snap)
+        r = LifecycleRun(rng, sc, susp=susp, rank=rng.choice(["stable", "perm", "reverse"]), horizon=horizon, snapshot=snap,
+                         has_id=not name.startswith("noid:"))
         r.name = name
+        if name.startswith("mix") or name.startswith("setinfo") or name.startswith("reset@"):
+            # wake-up jitter: every loop wake-up up to 30 ms late (the lifecycle model is untimed)
+            lr = env.rng(f"c08-late-{name}")
+            r.s.loop.lateness = lambda lr=lr: lr.choice([0.0, 0.0, 0.01, 0.03])
         r.run()
         runs.append(r)
     return runs
@@ -162,12 +188,20 @@ def run_scenarios(rng, quick, which=None):
 def validate_runs(ctx, runs, tag):
     """-> list of (run, verdict)"""
     maxep = max(2, max(sum(1 for e in r.log if e.get("ev") == "CONNECTION_STARTED") for r in runs) + 2)
-    logs = [{"ev": r.log, "name": r.name} for r in runs]
-    verdicts, states = tlc.validate("Lifecycle_Trace", logs, tag,
-                                    CFG.format(maxep=maxep, pumpdies=flag("KF_PumpDies"), overtake=flag("KF_Overtake"), late=flag("KF_LateComplete")),
-                                    chunk=4, heap="3g", jobs=12, why_rejects=False, timeout=3000)
-    ctx.ev.cov["trace_validation_states"] = ctx.ev.cov.get("trace_validation_states", 0) + states
-    return list(zip(runs, verdicts))
+    out = []
+    # the initial configuration (identifier given or not) is a constant of the trace specification
+    for has_id in (True, False):
+        group = [r for r in runs if r.has_id == has_id]
+        if not group:
+            continue
+        logs = [{"ev": r.log, "name": r.name} for r in group]
+        verdicts, states = tlc.validate("Lifecycle_Trace", logs, f"{tag}-{'id' if has_id else 'noid'}",
+                                        CFG.format(maxep=maxep, maxrf=max_rf(), hasid="TRUE" if has_id else "FALSE",
+                                                   pumpdies=flag("KF_PumpDies"), overtake=flag("KF_Overtake"), late=flag("KF_LateComplete")),
+                                        chunk=4, heap="3g", jobs=12, why_rejects=False, timeout=3000)
+        ctx.ev.cov["trace_validation_states"] = ctx.ev.cov.get("trace_validation_states", 0) + states
+        out += list(zip(group, verdicts))
+    return out
 
 
 def report(ctx, pairs, pid_filter=None):
